@@ -74,6 +74,13 @@ validations:
 """
 
 
+# compiles and evaluates, but the custom Rego adds something that is not a result object to a level's result set
+NON_OBJECT_RESULT_PROFILES = [
+    "profile: x\nprefixes:\n  ex: http://example.org/ns#\nrego_extensions: |\n  violation[x] { x := \"foo\" }\nviolation: [v]\nvalidations:\n  v:\n    targetClass: ex.T\n    propertyConstraints:\n      ex.p:\n        minCount: 1\n",
+    "profile: x\nprefixes:\n  ex: http://example.org/ns#\nrego_extensions: |\n  warning[x] { x := 5 }\n  info[x] { x := [1] }\nviolation: [v]\nwarning: [v]\ninfo: [v]\nvalidations:\n  v:\n    targetClass: ex.T\n    propertyConstraints:\n      ex.p:\n        minCount: 1\n",
+]
+
+
 def node(i, **props):
     n = {"@id": "http://example.org/n%d" % i, "@type": [EX + "T"]}
     for k, v in props.items():
@@ -179,9 +186,12 @@ def fixture_pairs(limit=None):
 def representatives(pclass, dclass):
     """All (profile, data) concrete pairs for an abstract class pair."""
     profs = {"ok": [OK_PROFILE, OK_PROFILE_NESTED], "parseError": PARSE_ERROR_PROFILES,
-             "genError": GEN_ERROR_PROFILES, "regoError": REGO_ERROR_PROFILES}[pclass]
+             "genError": GEN_ERROR_PROFILES, "regoError": REGO_ERROR_PROFILES,
+             "reportError": NON_OBJECT_RESULT_PROFILES}[pclass]
     docs = {"ok": OK_DOCS, "okNoNodes": NO_NODES_DOCS, "notJson": NOT_JSON_DOCS,
             "ldReject": LD_REJECT_DOCS, "evalError": OK_DOCS[:1] + OK_DOCS[2:3]}[dclass]
     if dclass == "evalError" and pclass == "ok":
         profs = [EVAL_ERROR_PROFILE]
+    if dclass == "evalError" and pclass == "reportError":
+        profs = []      # an evaluation error is a property of the profile here: no representative for this pair
     return profs, docs
